@@ -2876,6 +2876,12 @@ func (db *DB) importToLTX(ctx context.Context, r io.Reader) (ltx.Pos, error) {
 	// Prepend header back onto original reader.
 	r = io.MultiReader(bytes.NewReader(data), r)
 
+	// The page size of a non-empty database cannot change. Applying such an
+	// LTX file would fail after it has already become part of the log.
+	if db.pageSize != 0 && db.PageN() > 0 && hdr.PageSize != db.pageSize {
+		return ltx.Pos{}, fmt.Errorf("page size of imported database (%d) does not match existing database (%d)", hdr.PageSize, db.pageSize)
+	}
+
 	// Determine resulting position.
 	pos := db.Pos()
 	pos.TXID++
